@@ -479,6 +479,11 @@ func run(sc vh.Scenario, dir string, rec *vh.Rec) {
 	for _, st := range sc.Steps {
 		fr, _ := st["frame"].(map[string]interface{})
 		for k := 0; k < reps; k++ {
+			if st.A() == "Frame" {
+				rec.Begin(vh.Event{"a": "Frame", "frame": fr})
+				rec.Emit(frameOne(g, fr))
+				continue
+			}
 			rec.Begin(vh.Event{"a": "Decode", "frame": fr})
 			rec.Emit(decodeOne(g, fr))
 		}
